@@ -275,10 +275,14 @@ type cntObj struct {
 	Writes       int
 	Lists        int
 	TEAfterClose bool
+	closeErr     bool // the first Close returns an error
 	ctx          context.Context
 }
 
 type cntFS struct {
+	closeErrPct  int
+	closeErrSeed uint32
+
 	mu    sync.Mutex
 	nodes map[string]*cntNode
 	calls []string
@@ -323,6 +327,10 @@ func (f *cntFS) parentOK(p string) bool {
 
 func (f *cntFS) newObj(kind, p string, n *cntNode, r *sftp.Request) *cntObj {
 	o := &cntObj{fs: f, ID: len(f.objs) + 1, Kind: kind, Path: p, node: n, ctx: r.Context()}
+	if f.closeErrPct > 0 && kind != "statlister" {
+		h := sha256.Sum256([]byte(fmt.Sprintf("close-err %d %d", f.closeErrSeed, o.ID)))
+		o.closeErr = int(binary.BigEndian.Uint32(h[:4])%100) < f.closeErrPct
+	}
 	f.objs = append(f.objs, o)
 	return o
 }
@@ -664,8 +672,13 @@ func (o *cntObj) close() error {
 	o.fs.mu.Lock()
 	defer o.fs.mu.Unlock()
 	o.Closed++
+	if o.closeErr && o.Closed == 1 {
+		return errCntClose
+	}
 	return nil
 }
+
+var errCntClose = errors.New("handler object: close failed (data may be lost)")
 
 func (o *cntObj) transferError(err error) {
 	o.fs.mu.Lock()
